@@ -158,6 +158,11 @@ func judgeC11(c c11Case) (string, string) {
 	if c.Under == "subdir" || c.Under == "wrapped" {
 		pre = "s/"
 	}
+	// (0) the view is the filtered view: naive evaluation of include patterns followed by the follow-path targets
+	// (every link traversed and the final location, by the independent resolver), then the exclude patterns
+	if k, m := c11ViewIsReference(c, pre, listedPaths); k != "" {
+		return k, m
+	}
 	for _, n := range c.Tree {
 		if n.Kind != fsmodel.File {
 			continue
@@ -264,6 +269,71 @@ func c11Transfer(c c11Case, view fsutil.FS, dst, pre string, listed []string) (s
 	return "", ""
 }
 
+// c11Includes: the include list the view is defined by (nil when a follow path reaches the root).
+func c11Includes(c c11Case) []string {
+	inc := append([]string{}, c.Include...)
+	var targets []string
+	for _, f := range c.Follow {
+		links, final, _ := resolveRef(c.Tree, f)
+		if final == "" {
+			return nil // the root is followed: everything is included
+		}
+		targets = append(append(targets, links...), final)
+	}
+	sortStrings(targets)
+	for i, t := range targets {
+		nested := i > 0 && targets[i-1] == t
+		for _, g := range targets {
+			if g != t && strings.HasPrefix(t, g+"/") {
+				nested = true
+			}
+		}
+		if !nested {
+			inc = append(inc, t)
+		}
+	}
+	return inc
+}
+
+func c11ViewIsReference(c c11Case, pre string, listed []string) (string, string) {
+	inc := c11Includes(c)
+	render := func(kept map[string]bool) string {
+		var out []string
+		// the sub-root entry: the composite always reports it; a filter ON TOP of the composite reports it when
+		// there is no include list (nothing can exclude it: all patterns are below it) or as an ancestor
+		if c.Under == "wrapped" || (c.Under == "subdir" && (len(inc) == 0 || len(kept) > 0)) {
+			out = append(out, "s")
+		}
+		if c.Under == "map" && kept["a/x"] {
+			// dropped by the map function after matching: it no longer keeps its ancestors alive either
+			k2 := map[string]bool{}
+			for p := range kept {
+				if p != "a/x" {
+					k2[p] = true
+				}
+			}
+			kept = k2
+		}
+		for _, p := range closure(c.Tree, kept) {
+			out = append(out, pre+p)
+		}
+		return strings.Join(out, " ")
+	}
+	nk, err := naiveKept(c.Tree, inc, c.Exclude)
+	if err != nil {
+		return "infra", err.Error()
+	}
+	got := strings.Join(listed, " ")
+	if got == render(nk) {
+		return "", ""
+	}
+	ck, err := chainKept(c.Tree, inc, c.Exclude)
+	if err == nil && got == render(ck) {
+		return "pm-incremental", fmt.Sprintf("the view lists [%s], naive evaluation gives [%s]; an unpruned chain of MatchesUsingParentResults gives the view's listing (dependency moby/patternmatcher)", got, render(nk))
+	}
+	return "view-differs-from-reference", fmt.Sprintf("the view lists [%s]; naive evaluation of include %q exclude %q gives [%s]", got, inc, c.Exclude, render(nk))
+}
+
 // pmClass: does the naive matcher entry point disagree with the incremental chain
 // for this path under the case's pattern lists (the known dependency finding)?
 func pmClass(c c11Case, p string) bool {
@@ -363,6 +433,14 @@ func runC11(r *evid.Run) {
 				}
 				for _, in := range patternLists(1, c11Patterns) {
 					cases = append(cases, c11Case{Tree: tl, Follow: fp, Include: in, Under: under})
+				}
+				// include lists with an exception: the follow targets come after it
+				if under == "disk" || under == "mem" {
+					for _, in := range inc {
+						if len(in) == 2 && (strings.HasPrefix(in[0], "!") || strings.HasPrefix(in[1], "!")) {
+							cases = append(cases, c11Case{Tree: tl, Follow: fp, Include: in, Under: under})
+						}
+					}
 				}
 			}
 		}
